@@ -240,7 +240,16 @@ impl BuildJob<'_> {
         let mut argv: Vec<OsString> = vec![
             OsString::from("sh"),
             OsString::from("-e"),
-            df.do_file.clone(),
+            {
+                // A script whose name starts with a dash would be taken for
+                // options by the shell (and by any #! interpreter).
+                let mut script = OsString::new();
+                if df.do_file.to_string_lossy().starts_with('-') {
+                    script.push("./");
+                }
+                script.push(&df.do_file);
+                script
+            },
             arg1,
             arg2,
             // $3 temp output file name
@@ -257,10 +266,12 @@ impl BuildJob<'_> {
         let firstline = {
             let f = File::open(df.do_dir.join(&df.do_file)).map_err(RedoError::opaque_error)?;
             let mut f = BufReader::new(f);
-            let mut firstline = String::new();
-            f.read_line(&mut firstline)
+            // Only "#!/..." matters here: a first line in another encoding
+            // (a Latin-1 comment) is the shell's business, not an error.
+            let mut firstline: Vec<u8> = Vec::new();
+            f.read_until(b'\n', &mut firstline)
                 .map_err(RedoError::opaque_error)?;
-            firstline
+            String::from_utf8_lossy(&firstline).into_owned()
         };
         let firstline = firstline.trim();
         if firstline.starts_with("#!/") {
